@@ -328,10 +328,10 @@ func c13Ops() []c13Op {
 }
 
 type c13Replay struct {
-	Doc     int     `json:"doc"`
-	History []c13Op `json:"history"`
+	Doc     int      `json:"doc"`
+	History []c13Op  `json:"history"`
 	Trace   []string `json:"trace"`
-	Detail  string  `json:"detail"`
+	Detail  string   `json:"detail"`
 }
 
 // c13Run replays a history on a fresh world, checking purity after every call
